@@ -285,6 +285,31 @@ def run(ctx: Ctx, rs: RuleSet, tier: str):
     rs.fail(rule_t, f'{ti.qualname}:reads', 'no yielded value is read through '
             'getattr / the positional view', ctx.loc(ti, ti.node))
 
+  # ---- replace() writes rebuilt children back through
+  # move_buildable_internals: it must install the source's internals whenever
+  # it returns (a shortcut for "equal" arguments keeps the old, merely equal,
+  # child objects where the replacement value should be)
+  mb = ctx.func('fiddle._src.mutate_buildable.move_buildable_internals')
+  gm = ctx.cfg(mb)
+  copies = {n for n in gm.nodes() if any(
+      isinstance(e, ast.Call) and unparse(e.func).endswith('__setattr__') and
+      len(e.args) == 3 and unparse(e.args[0]) == mb.params[1]
+      for e in cfg_lib.walk_node(gm, n))}
+  loops = {n for n in gm.nodes() if gm.kind[n] == 'for' and any(
+      c in gm.reach([x for x, lab in gm.succ[n] if lab == 'iter'],
+                    blocked={n}, labels=cfg_lib.NO_EXC) for c in copies)}
+  through = bool(copies) and bool(loops) and gm.exit not in gm.reach(
+      [gm.entry], blocked=loops, labels=cfg_lib.NO_EXC)
+  rs.declare('DOM.write-back', 'move_buildable_internals installs the '
+             'source\'s internals on every normal return', 1)
+  rs.check(through, 'DOM.write-back', mb.qualname,
+           'every return passes the loop that copies the internals' if through
+           else 'a path returns without copying the internals: '
+           'NodeSelection.replace() rebuilds parents through this function, so '
+           'a replacement that compares equal to the old child is silently '
+           'not installed (identity and sharing of the result differ)',
+           ctx.loc(mb, mb.node))
+
   # ---- replace: identity of non-matching nodes
   rule = 'IDENTITY.replace'
   rs.declare(rule, 'replace() substitutes matches and keeps every other '
